@@ -849,6 +849,41 @@ func indexCall(v ssa.Value) (s ssa.Value, subLen int, ok bool) {
 	return nil, 0, false
 }
 
+// cutBefore recognises the first result of strings.Cut(S, sep): its length r
+// satisfies 0 ≤ r ≤ len(S) always, and r + len(sep) ≤ len(S) where the third
+// result (found) is known true.
+func cutBefore(v ssa.Value) (S ssa.Value, sepLen int, found ssa.Value, ok bool) {
+	ex, isEx := canon(v).(*ssa.Extract)
+	if !isEx || ex.Index != 0 {
+		return nil, 0, nil, false
+	}
+	cl, isCall := ex.Tuple.(*ssa.Call)
+	if !isCall || !isFunc(calleeObj(cl), "strings", "Cut") {
+		return nil, 0, nil, false
+	}
+	if sep, isC := constString(cl.Call.Args[1]); isC {
+		sepLen = len(sep)
+	}
+	return cl.Call.Args[0], sepLen, extractOf(cl, 2), true
+}
+
+// flagTrueAt: the boolean value is known true at block at.
+func (ix *idxProver) flagTrueAt(v ssa.Value, at *ssa.BasicBlock) bool {
+	if v == nil {
+		return false
+	}
+	tE, _ := boolEdges(ix.fn, v)
+	if guarded(at, tE) {
+		return true
+	}
+	for _, e := range tE {
+		if e.To() == at && e.From.Succs[1-e.Succ] != at {
+			return true
+		}
+	}
+	return false
+}
+
 // foundAt: at block `at` the search result v is known to be ≥ 0 (past v > -1,
 // v >= 0, v != -1 true edges or v == -1 / v < 0 false edges).
 func (ix *idxProver) foundAt(v ssa.Value, at *ssa.BasicBlock) bool {
@@ -987,8 +1022,23 @@ func (ix *idxProver) le(v ssa.Value, c int, B bterm, at *ssa.BasicBlock, seen ma
 			for _, pr := range [][2]ssa.Value{{x.X, x.Y}, {x.Y, x.X}} {
 				a, b := pr[0], pr[1]
 				S, sl, ok := indexCall(a)
-				if !ok || !ix.foundAtOrPhi(a, at) {
+				if ok && !ix.foundAtOrPhi(a, at) {
 					continue
+				}
+				if !ok {
+					// or a = len(before) with before, _, found := Cut(S[b:h], sep)
+					l := lenOf(a)
+					if l == nil {
+						continue
+					}
+					S2, sl2, fnd, ok2 := cutBefore(l)
+					if !ok2 {
+						continue
+					}
+					S, sl = S2, 0
+					if ix.flagTrueAt(fnd, at) {
+						sl = sl2
+					}
 				}
 				ss, ok := S.(*ssa.Slice)
 				if !ok || ss.Low == nil || !sameInt(ss.Low, b) {
@@ -1019,6 +1069,16 @@ func (ix *idxProver) le(v ssa.Value, c int, B bterm, at *ssa.BasicBlock, seen ma
 			if c <= 0 && ix.lenLe(l, B) {
 				return true
 			}
+			// l is what strings.Cut found in front of the separator
+			if S, sl, fnd, ok := cutBefore(l); ok {
+				eff := 0
+				if ix.flagTrueAt(fnd, at) {
+					eff = sl
+				}
+				if c <= eff && ix.lenLe(S, B) {
+					return true
+				}
+			}
 			return false
 		}
 		if S, sl, ok := indexCall(x); ok && ix.foundAt(x, at) {
@@ -1046,6 +1106,31 @@ func sameInt(a, b ssa.Value) bool {
 
 // lenLe: len(S) ≤ B.
 func (ix *idxProver) lenLe(S ssa.Value, B bterm) bool {
+	if B.lenOf == nil && B.val != nil {
+		if T := lenOf(B.val); T != nil && (sameSeq(S, T) || canon(S) == canon(T)) {
+			return true
+		}
+	}
+	if B.lenOf != nil && (sameSeq(S, B.lenOf) || canon(S) == canon(B.lenOf)) {
+		return true
+	}
+	// what Cut found in front of the separator is not longer than what was cut
+	if S2, _, _, ok := cutBefore(S); ok {
+		return ix.lenLe(S2, B)
+	}
+	if B.lenOf == nil && B.val != nil {
+		// B is len(T) for the same sequence
+		if T := lenOf(B.val); T != nil && (sameSeq(S, T) || canon(S) == canon(T)) {
+			return true
+		}
+		if T := lenOf(B.val); T != nil {
+			if ss, ok := S.(*ssa.Slice); ok {
+				if ix.lenLe(ss.X, B) {
+					return true
+				}
+			}
+		}
+	}
 	if B.lenOf != nil {
 		if sameSeq(S, B.lenOf) || canon(S) == canon(B.lenOf) {
 			return true
